@@ -101,6 +101,18 @@ def gen(rng, budget, tier):
             k = rng.randrange(len(stream))
             stream = stream[:k] + bytes([rng.randrange(256)]) + stream[k + 1:]
         yield ("c10.run " if run else "c10.decode ") + hexs(stream)
+    # real dispatch of read commands whose file argument is a glob that matches the existing file: wild cards in the last
+    # element, and paths that are not in canonical form (doubled slash, './', 'x/../') — added last
+    import os
+    d, _ = os.path.split(EXISTS)
+    globs = [d + b"//c10-exists.txt", d + b"//c10-*.txt", d + b"/./c10-e?ists.txt", d + b"/../C10/c10-[a-e]xists.txt", d + b"/c10-*.txt",
+             d + b"//c10-ex*", d + b"/../C10//c10-exis*.txt", d + b"/./././c10-exists.tx?", b"/" + d + b"/c10-*"]
+    for _ in range(60 if tier == "quick" else 3000):
+        w = rng.choice([b"cat", b"grep", b"cat", b"tail"])
+        opts = b":".join(rng.choice([b"quiet=true", b"plain=true", b"before=2", b"after=1", b"max=3"]) for _ in range(rng.choice([0, 1, 2])))
+        head = w + (b":" + opts if opts else b"")
+        rx = rng.choice([b"regex:noop ", b"regex:default a", b"regex:invert a"])
+        yield "c10.run " + hexs(b"protocol 4.1 base64 " + base64.b64encode(head + b" " + rng.choice(globs) + b" " + rx) + b";")
 
 
 PROJ = {"c10.query": lambda s: "no-panic" if not s.startswith(("CRASH", "PANIC", "NO-RESULT")) else s, "c10.run": lambda s: s if s.startswith(("CRASH", "PANIC", "NO-RESULT")) else "no-crash",
